@@ -438,7 +438,13 @@ func (p *printer) expr(n *Node) {
 			if i > 0 {
 				w(", ")
 			}
-			p.expr(e)
+			if n.BV && i == len(n.List)-1 && (e.T == "int" || e.T == "float") {
+				w("(") // "1..." would scan as the float "1." followed by ".."
+				p.expr(e)
+				w(")")
+			} else {
+				p.expr(e)
+			}
 		}
 		if n.BV {
 			w("...")
